@@ -1351,6 +1351,9 @@ def run(ctx):
     rep.assumptions += ['clang -O0 IR of the instantiated skeleton is a faithful rendering of the generated C/C++ source',
                         'a callee that (transitively) stores yy_c_buf_p re-establishes it (yyrestart, yy_load_buffer_state)']
     flush_vac(rep)
+    import macro_hygiene
+    macro_hygiene.check(ctx, 'C03.R9', {'yy_set_interactive'}, ['yy_set_interactive'])
+    rep.floor('C03.R9', 3, 'yy_set_interactive() in the nr, r and C++ instantiation of the cpp skeleton')
     return rep.finish('other',
         'Path rules on LLVM IR of %d instantiated scanner variants (nr, r, C++, c99, go; all table modes): must-pass-through of '
         'yy_get_previous_state() on the refill arms of yylex; staleness analysis of pointers into the buffer (derived by taint from '
